@@ -278,9 +278,12 @@ namespace sbepp
 #    define SBEPP_ASSERT(expr) assert(expr)
 #endif
 
+// `begin` can be past `end` for views created at a dynamic offset read from a
+// truncated or corrupted buffer, `end - begin` must not be treated as a huge
+// unsigned value in that case
 #define SBEPP_SIZE_CHECK(begin, end, offset, size) \
     SBEPP_ASSERT(                                  \
-        (begin)                                    \
+        (begin) && ((begin) <= (end))              \
         && (((offset) + (size)) <= static_cast<std::size_t>((end) - (begin))))
 
 //! @brief The main `sbepp` namespace
